@@ -55,7 +55,10 @@ const PATHS: &[&str] = &[
     "/bkt/a%2520b",
     "/bkt/%2541",
 ];
-const QUERIES: &[&str] = &["", "a=1", "a=", "a", "b=2&a=1", "a=2&a=1", "a=1&a=2", "a=%20+%2F", "k=%C3%A9", "A=1&a=2", "k=%2541&%2520=v"];
+const QUERIES: &[&str] = &["", "a=1", "a=", "a", "b=2&a=1", "a=2&a=1", "a=1&a=2", "a=%20+%2F", "k=%C3%A9", "A=1&a=2", "k=%2541&%2520=v",
+    // names whose order changes when they are escaped (the canonical form sorts the *escaped* names): ':' sorts after '1',
+    // "%3A" before it; 'é' sorts after 'e', "%C3%A9" before it - in both wire orders
+    "x-a1=1&x-a%3Ab=2", "x-a%3Ab=2&x-a1=1", "name=1&nam%C3%A9=2", "nam%C3%A9=2&name=1"];
 const HDR_VARIANTS: usize = 10;
 
 fn hdr_variant(r: &mut Req, v: usize) {
@@ -725,7 +728,7 @@ pub fn run(ctx: &Ctx) -> (Acc, Report) {
     }
     let rep = Report {
         level: "exploration",
-        rule: format!("{n_bases} honestly signed base requests (method x 17 paths x 11 query multisets x 10 signed-header shapes x payload/mode x HTTP/1.1|HTTP/2), each with every applicable single-component mutation (each signed header value/name/removal, each query pair, each path byte, method, each body byte, each signature digit, each scope field, dates, provider secret, signed-header list) and 6 canonical-equivalent rewrites; oracle = reference verifier on the same bytes. Distinct by (base, mutation) id; every evaluated case is non-trivial (it reaches signature comparison or a parse refusal)."),
+        rule: format!("{n_bases} honestly signed base requests (method x 17 paths x 15 query multisets (incl. names whose order changes when they are escaped) x 10 signed-header shapes x payload/mode x HTTP/1.1|HTTP/2), each with every applicable single-component mutation (each signed header value/name/removal, each query pair, each path byte, method, each body byte, each signature digit, each scope field, dates, provider secret, signed-header list) and 6 canonical-equivalent rewrites; oracle = reference verifier on the same bytes. Distinct by (base, mutation) id; every evaluated case is non-trivial (it reaches signature comparison or a parse refusal)."),
         exhaustive: true,
         extra: json!({"histories": hist_n, "history_requests_executed": hist_steps, "history_rule": "all sequences of length 1..3 over 8 requests of this property's scheme(s) (two identities x honest / signed with the other identity's secret x two scopes) plus every pair led by a request of another scheme, on one service instance, single-threaded, fixed order; each verdict = the reference verdict of that request alone", "base_requests": n_bases, "quick_tier_note": "quick keeps grid points where at most one of (path, query, header-shape, http2) is beyond its first two values; thorough is the full product"}),
         assumptions: vec![
